@@ -85,6 +85,15 @@ func cloneValue(src interface{}, dst interface{}) {
 			dstElem.SetMapIndex(srcKey, dstVal)
 		}
 
+	case reflect.Array:
+		// an array is a value but its elements may be (or contain)
+		// pointers, slices or maps which must not be shared
+		arr := reflect.New(srcType).Elem()
+		for i := 0; i < srcVal.Len(); i++ {
+			cloneValue(srcVal.Index(i).Interface(), arr.Index(i).Addr().Interface())
+		}
+		dstVal.Elem().Set(arr)
+
 	case reflect.Struct:
 		srcType := srcVal.Type()
 		// we deep copy structure
